@@ -100,19 +100,22 @@ struct MModel { std::string gdecl; std::vector<MTemplate> templs; std::string sy
 
 static inline std::string loc_name(const MLoc& l) { return l.name.empty() ? "_" + l.id : l.name; }
 static inline bool edge_control(const MEdge& e) { return e.ctrl != 2; }
+// white space around the identifier inside <name> elements (hand-formatted or pretty-printed XML); the reader must trim it
+static std::string xml_name_pad_left, xml_name_pad_right;
 static inline XmlDoc render_xml(const MModel& m)
 {
+    auto padded = [&](const std::string& n) { return xml_name_pad_left + n + xml_name_pad_right; };
     XmlDoc d;
     d.el("nta");
     d.leaf("declaration", m.gdecl);
     for (auto& t : m.templs) {
         d.el("template");
-        d.leaf("name", t.name);
+        d.leaf("name", padded(t.name));
         if (!t.params.empty()) d.leaf("parameter", t.params);
         d.leaf("declaration", t.decls);
         for (auto& l : t.locs) {
             d.el("location", {{"id", l.id}});
-            if (!l.name.empty()) d.leaf("name", l.name);
+            if (!l.name.empty()) d.leaf("name", padded(l.name));
             if (!l.inv.empty()) d.leaf("label", l.inv, {{"kind", "invariant"}});
             if (!l.rate.empty()) d.leaf("label", l.rate, {{"kind", "exponentialrate"}});
             if (l.urgent) d.empty("urgent");
